@@ -70,6 +70,18 @@ CHECKS = {
    note=TB + 'Known finding: a let nested in a class member that re-binds an earlier FIELD name of that class (translator does not track class fields as binders). Inline Python is a closed vocabulary; parameters of templates are covered under C06.',
    technique='Coq refinement proof with environment invariant (flat locals vs lexical scoping) + differential correspondence',
    ref='DESIGN.md §6 C05'),
+ 'C06': dict(
+   category='translation_validation',
+   text='The executable Coq model (Model.exec: Call / RefL / argument passing exactly as argumentize and _ParseFunction do it — rule '
+        'function, local value, inline-Python value, wrapped literal, lifted argument function with its sorted free variables, '
+        'arity check at invocation, keyword binding) is compared with the implementation on a catalogue of templates and call sites '
+        '(literal, compound, rule, class, nested, recursive, keyword, value and captured-name arguments, several instantiations at '
+        'one position) in unnamed and named grammars; and every call site with a finite expansion is compared, on the '
+        'implementation, with the hand-expanded grammar (the property\'s own wording). No refinement theorem to a substitution '
+        'specification is proved yet for Call/RefL (the specification says Raise = no claim there).',
+   note=TB + 'level is translation validation, not proof: DESIGN.md explains what the missing theorem is. Known findings: names used only in inline Python / counts of an argument are not captured (three catalogue sites).',
+   technique='differential validation of an executable Coq model and of hand expansions (no theorem for calls yet)',
+   ref='DESIGN.md §6 C06'),
  'C07': dict(
    text='Coq theorems on a machine model of _run (explicit stack of suspended generators, memo, value being sent, log of body '
         'starts; rule bodies abstract interaction trees): C07_memo_transparent (the machine ends with exactly the triple of '
